@@ -96,7 +96,9 @@ func (this *Allocator) getPartitionsNodeIds(partitionCount uint, replicationFact
 			nodeIds[i], nodeIds[j] = nodeIds[j], nodeIds[i]
 		})
 
-		partitionsNodeIds[i] = nodeIds[:math.MinInt(len(nodeIds), int(replicationFactor))]
+		// Copy: the next shuffle permutes nodeIds in place.
+		n := math.MinInt(len(nodeIds), int(replicationFactor))
+		partitionsNodeIds[i] = append(make([]uint64, 0, n), nodeIds[:n]...)
 	}
 
 	return partitionsNodeIds
